@@ -52,6 +52,26 @@ class Gen:
             w, v = self.marker()
             W += ["a", "=", w, ";"]
             return ("Assignment", v)
+        if k == "DECLD":
+            W += ["bit", "d", ";"]
+            return ("DeclNoInit", "d")
+        if k == "DECLREG":
+            W += ["bit", "[", "4", "]", "w", ";"]
+            return ("DeclNoInit", "w")
+        if k == "ASG":
+            # assignment with the target and the value in every identifier / indexed-identifier combination
+            _, tform, vform = it
+            def side(form, idname):
+                if form == "id":
+                    W.append(idname); return ("id", idname)
+                if form == "idx":
+                    w, v = self.marker(); W.extend(["w", "[", w, "]"]); return ("idx", "w", v)
+                w, v = self.marker(); W.append(w); return ("lit", v)
+            t = side(tform, "b")
+            W.append("=")
+            v = side(vform, "d")
+            W.append(";")
+            return ("Asg", t, v)
         if k == "BR":
             W += ["break", ";"]; return ("Break",)
         if k == "CO":
@@ -290,6 +310,36 @@ class H(semh.Base):
             if s.v != "Assignment":
                 raise bad()
             self.val(ex, s[0]["rvalue"], e[1], where)
+            lv = s[0]["lvalue"]
+            if lv.v != "Identifier" or self.ident_name(R, lv[0]) != "a":
+                raise Violation(f"`{self.label()}`: {where}: the assignment target in the graph is {lv!r}, the source assigns to `a`")
+        elif k == "DeclNoInit":
+            if s.v != "DeclareClassical" or self.ident_name(R, s[0]["name"]) != e[1] or s[0]["initializer"] is not None:
+                raise bad()
+        elif k == "Asg":
+            if s.v != "Assignment":
+                raise bad()
+            def side(what, node, exp, is_value):
+                # node: LValue (target) or Expr (value)
+                if exp[0] == "id":
+                    if node.v != "Identifier" or self.ident_name(R, node[0]) != exp[1]:
+                        raise Violation(f"`{self.label()}`: {where}: the {what} in the graph is {node!r}, the source has the identifier `{exp[1]}`")
+                elif exp[0] == "idx":
+                    if node.v != "IndexedIdentifier" or self.ident_name(R, node[0]["identifier"]) != exp[1]:
+                        raise Violation(f"`{self.label()}`: {where}: the {what} in the graph is {node!r}, the source has `{exp[1]}[..]`")
+                    idx = node[0]["indexes"]
+                    if len(idx) != 1 or idx[0].v != "ExpressionList" or len(idx[0][0]["expressions"]) != 1:
+                        raise Violation(f"`{self.label()}`: {where}: index list of the {what} is {idx!r}")
+                    self.val(ex, idx[0][0]["expressions"][0], exp[2], f"{where} index of the {what}")
+            side("target", s[0]["lvalue"], e[1], False)
+            rv = s[0]["rvalue"]
+            if e[2][0] == "lit":
+                self.val(ex, rv, e[2][1], f"{where} value")
+            else:
+                x = rv["expression"]
+                while x.v == "Cast":
+                    x = x[0]["operand"]["expression"]
+                side("value", x, e[2], True)
         elif k in ("Break", "Continue", "End"):
             if s.v != k:
                 raise bad()
@@ -609,6 +659,10 @@ def build_tasks(quick):
             if quick and (i + j) % 3:
                 continue
             add(f"order:{x[0]}-{y[0]}", [x, M, y])
+    # assignment: target and value in their roles
+    for tform in ("id", "idx"):
+        for vform in ("id", "idx", "lit"):
+            add(f"asg:{tform}={vform}", [("DECLREG",), ("IO", "input") if False else ("DECLD",), ("ASG", tform, vform), M])
     # gate call: modifiers in order
     for mods in [("inv",), ("pow",), ("ctrl",), ("negctrl",), ("inv", "pow"), ("pow", "inv"), ("ctrl", "inv"), ("inv", "ctrl", "pow"), ("negctrl", "ctrl"), ("pow", "pow")]:
         add("mods:" + "-".join(mods), [("MOD", mods), M])
@@ -617,6 +671,12 @@ def build_tasks(quick):
     add("ann:2", [M, ("ANN", ["first 1", "second 2"], ("GC",)), M])
     add("ann:if", [("ANN", ["cond"], ("IF", "block", [M], "none", [])), M])
     add("ann:two-statements", [("ANN", ["one"], M), ("ANN", ["two"], M)])
+    # annotations inside blocks belong to the statement that follows them in the block, not to the enclosing statement
+    add("ann:inside-while", [("WH", "block", [M, ("ANN", ["inner 1"], M)]), M])
+    add("ann:inside-if", [("IF", "block", [("ANN", ["inner"], M), M], "block", [M, ("ANN", ["inner2"], M)]), M])
+    add("ann:inside-def", [("DEF", "e", [("ANN", ["inner"], M)]), M])
+    add("ann:inside-for", [("FOR", "block", [("ANN", ["inner"], M), M], "range"), M])
+    add("ann:outer-and-inner", [("ANN", ["outer"], ("WH", "block", [("ANN", ["inner"], M), M])), M])
     add("pragma:1", [M, ("PRAGMA", "some text here 1 2"), M])
     add("pragma:ann", [("PRAGMA", "p q"), ("ANN", ["after pragma"], M)])
     for op in BINOPS:
